@@ -83,6 +83,24 @@ func C11LoadGrowPrune(ctx context.Context, run *common.Run) {
 					fail("same-height-per-header", "getheader-panics/"+stage, pan)
 					return false
 				}
+				if gerr != nil {
+					fail("retrievable-before-retrievable-after", "loaded-getheader-fails/"+stage+"/"+errClass(gerr), fmt.Sprintf("header %d of the best chain: GetHeader on the loaded repository: %v", h, gerr))
+					return false
+				}
+				// by height: the same best chain at every height, in memory or read back from the files
+				for ri, r := range []*headers.Repository{orig, loaded} {
+					var hh *Hash
+					var herr error
+					if pan := safe(func() { hh, herr = r.Hash(ctx, h) }); pan != "" {
+						fail("same-best-chain-at-every-height", "hash-at-height-panics/"+stage, pan)
+						return false
+					}
+					if herr != nil || hh == nil || *hh != hash {
+						fail("same-best-chain-at-every-height", fmt.Sprintf("hash-at-height-wrong/%s/%s/%s", stage, []string{"original", "loaded"}[ri], errOrWrong(errClass(herr))),
+							fmt.Sprintf("height %d: Hash() on the %s repository returned %v (%v), the chain has %s", h, []string{"original", "loaded"}[ri], hh, herr, hash))
+						return false
+					}
+				}
 				if gerr == nil && (gh == nil || *gh.BlockHash() != hash || gheight != h || !gl) {
 					fail("same-height-per-header", "loaded-getheader-after-later-prune/"+stage, fmt.Sprintf("header %d: GetHeader on the loaded repository returned height %d longest=%v", h, gheight, gl))
 					return false
